@@ -432,15 +432,45 @@ class PhysUnit(Model):
 
 
 class SinkData(Model):
+    """the numeric table of a sink csv as numpy hands it over: axes name what each dimension runs over ("row" = sinks, "col" = csv columns,
+    "one" = the unit axis np.atleast_2d puts in front of a 1-d array).  A file with ONE sink is read as a 1-d array of its columns."""
     kinds = ("ndarray",)
 
-    def __init__(self, tag="DATA"):
-        self.tag = tag
+    def __init__(self, axes=("row", "col"), ncols=5):
+        self.axes, self.ncols = tuple(axes), ncols
+
+    @property
+    def T(self):
+        return SinkData(self.axes[::-1], self.ncols)
+
+    @property
+    def ndim(self):
+        return len(self.axes)
+
+    def _along(self, axis_name, i):
+        if axis_name == "col":
+            return Sym(("column", i))
+        raise Unsupported("sink table: element %r along the %s axis stands for no single csv column" % (i, {"row": "sink", "one": "unit"}.get(axis_name, axis_name)))
 
     def __getitem__(self, idx):
-        if isinstance(idx, tuple) and len(idx) == 2 and isinstance(idx[0], slice) and idx[0] == slice(None) and isinstance(idx[1], int):
-            return Sym(("column", idx[1]))
+        if isinstance(idx, tuple) and len(idx) == 2 and isinstance(idx[0], slice) and idx[0] == slice(None) and isinstance(idx[1], int) and len(self.axes) == 2:
+            if self.axes[1] == "col":
+                return Sym(("column", idx[1]))
+            return Sym(("not-a-column", self.axes, idx[1]))
+        if isinstance(idx, int):
+            if self.axes[0] == "col":
+                return Sym(("column", idx))
+            return Sym(("not-a-column", self.axes, idx))
         raise Unsupported("sink table indexed with %r" % (idx,))
+
+    def __iter__(self):
+        if self.axes[0] == "col":
+            return iter([Sym(("column", i)) for i in range(self.ncols)])
+        n = 1 if self.axes[0] == "one" else 3
+        return iter([Sym(("not-a-column", self.axes, j)) for j in range(n)])
+
+    def __len__(self):
+        return self.ncols if self.axes[0] == "col" else (1 if self.axes[0] == "one" else 3)
 
 
 class TextFile(Model):
@@ -499,11 +529,16 @@ class SinkArr(Model):
 def sink_hooks(state):
     def loadtxt(fname, *a, **k):
         state["loadtxt"].append((fname, dict(k)))
-        return SinkData("raw")
+        ncols = len(state["lines"][0].split(",")) if state.get("lines") else 5
+        one = state.get("nsinks", 3) == 1
+        axes = ("col",) if one else (("col", "row") if k.get("unpack") else ("row", "col"))
+        return SinkData(axes, ncols)
 
     def atleast_2d(x):
         state["atleast_2d"] += 1
-        return SinkData("2d")
+        if isinstance(x, SinkData) and len(x.axes) == 1:
+            return SinkData(("one",) + x.axes, x.ncols)
+        return x
 
     def opener(fname, mode="r", *a, **k):
         state["open"].append((fname, mode))
@@ -525,8 +560,8 @@ def check_sink(run, tree):
     meta = {"nout": 7, "path": "PATH", "infile": "PATH/output_00007", "ndim": 3}
     want_file = "PATH/output_00007/sink_00007.csv"
 
-    def run_case(lines, exists=True, size=100, select=True, reader=None, units=None, shared=None):
-        state = {"lines": lines, "exists": exists, "size": size, "paths": [], "loadtxt": [], "open": [], "atleast_2d": 0}
+    def run_case(lines, exists=True, size=100, select=True, reader=None, units=None, shared=None, nsinks=3):
+        state = {"lines": lines, "exists": exists, "size": size, "paths": [], "loadtxt": [], "open": [], "atleast_2d": 0, "nsinks": nsinks}
         hooks = sink_hooks(state)
         if shared is not None:
             hooks["_module_state"] = shared        # module- and class-level objects of the package live as long as the process
@@ -537,11 +572,12 @@ def check_sink(run, tree):
         return ret, state, reader
     new = [" # id,msink,x,y,z,vx,vy,vz,lx\n", " # 1,m,l,l,l,l t**-1,l t**-1,l t**-1,m l**2 t**-1\n"]
     legacy = [" # id,msink,x,y,z\n", " # 1,[Msol],[cm],[cm],[cm]\n"]
-    for label, lines in (("code-unit header", new), ("legacy header with physical units", legacy)):
+    for label, lines, nsinks in (("code-unit header", new, 3), ("legacy header with physical units", legacy, 3), ("code-unit header, a single sink", new, 1),
+                                 ("legacy header, a single sink", legacy, 1)):
         construct = "%s.initialize[%s]" % (SINK, label)
         try:
             try:
-                ret, st, _ = run_case(lines)
+                ret, st, _ = run_case(lines, nsinks=nsinks)
             except (Raised, ProgramRaised) as e:
                 run.violated(construct, init.where(), "raises %s" % e, "a sink file with a %s" % label)
                 continue
@@ -550,8 +586,8 @@ def check_sink(run, tree):
                 problems.append("looks for %s (required %s)" % (st["paths"][:1], want_file))
             if len(st["loadtxt"]) != 1 or st["loadtxt"][0][0] != want_file or st["loadtxt"][0][1].get("skiprows") != 2 or st["loadtxt"][0][1].get("delimiter") != ",":
                 problems.append("table parsed with %s (required the file, comma-separated, skipping the 2 header lines)" % (st["loadtxt"],))
-            if st["atleast_2d"] != 1:
-                problems.append("the table is not made 2-D (a file with a single sink is indexed as a 1-D array)")
+            if st["atleast_2d"] != 1 and nsinks != 1:
+                pass        # how the table is made 2-D is the code's business: the single-sink cases decide whether every key gets its own column
             if not isinstance(ret, SinkGroup):
                 problems.append("returns %r" % (ret,))
             else:
